@@ -43,6 +43,9 @@ pub enum Act {
     /// form 0 native f64, 1 native f32, 2 reference asBytes, 3 reference asSmallBytes
     Td { form: u8, kk: u16, cents: Vec<(u64, u64)>, buffered: Vec<u64>, reverse: bool },
     BloomDirty { bits: u64, hashes: u16, seed: u64, items: Vec<u64>, dirty: bool },
+    /// a saturated filter of 2^32 bits (every bit set) from a foreign writer, its bit count marked dirty
+    /// or stated exactly: set-bit counts beyond u32::MAX
+    BloomHuge { dirty: bool, seed: u64 },
     Fi { strings: bool, lg_max: u8, lg_cur: u8, offset: u64, extra_weight: u64, entries: Vec<(u32, u64)>, legacy_empty: bool },
     Cm { ty: u8, hashes: u8, buckets: u32, seed: u64, items: Vec<(u64, u64)> },
 }
@@ -427,6 +430,9 @@ impl Scenario for C13 {
     fn generate(&self, rng: &mut Rng, _tier: Tier) -> (Cfg, Vec<Act>) {
         let n = 2 + rng.usize_below(6);
         let mut acts = vec![];
+        if rng.chance(1, 5000) {
+            acts.push(Act::BloomHuge { dirty: rng.chance(2, 3), seed: rng.next_u64() });
+        }
         for _ in 0..n {
             match rng.below(12) {
                 0 if rng.chance(1, 25) => {
@@ -537,6 +543,25 @@ impl Scenario for C13 {
                     theta_case(*ver, &entries, theta, *flags | 1, 9001, st)?;
                 }
                 Act::Td { form, kk, cents, buffered, reverse } => td_case(*form, *kk, cents, buffered, *reverse, st)?,
+                Act::BloomHuge { dirty, seed } => {
+                    let words = 1usize << 26;
+                    let mut img = Vec::with_capacity(32 + 8 * words);
+                    img.extend_from_slice(&[4, 1, 21, 0]);
+                    img.extend_from_slice(&3u16.to_le_bytes());
+                    img.extend_from_slice(&[0, 0]);
+                    img.extend_from_slice(&seed.to_le_bytes());
+                    img.extend_from_slice(&(words as i32).to_le_bytes());
+                    img.extend_from_slice(&[0; 4]);
+                    img.extend_from_slice(&(if *dirty { u64::MAX } else { 1u64 << 32 }).to_le_bytes());
+                    img.resize(32 + 8 * words, 0xff);
+                    st.fault("bloom_2_pow_32_bits_all_set");
+                    let f = match lib_call("BloomFilter::deserialize(2^32 bits)", || BloomFilter::deserialize(&img))? {
+                        Ok(f) => f,
+                        Err(e) => return Err(Violation::new("C13.bloom_rejected", format!("valid saturated Bloom image of 2^32 bits (dirty {dirty}) rejected: {e}"))),
+                    };
+                    drop(img);
+                    check!(f.bits_used() == 1 << 32 && !f.is_empty() && f.contains(&1u64), "C13.bloom_bits_used", "saturated 2^32-bit image (dirty {dirty}): bits_used {} is_empty {}", f.bits_used(), f.is_empty());
+                }
                 Act::BloomDirty { bits, hashes, seed, items, dirty } => {
                     let mut m = BloomModel::new((*bits).clamp(1, 1 << 18), (*hashes).clamp(1, 64), *seed);
                     for &it in items {
